@@ -567,6 +567,11 @@ func TestVerifC41(t *testing.T) {
 				break // already decided; do not spend the budget on hung cases
 			}
 		}
+		if run.stopFailed.Load() && r.NumViolations() > 0 {
+			// every further stuck drain costs two patience periods; the verdict is in
+			r.Count("runs.not_executed_after_stuck_stop_verdict", nRuns-i-1)
+			break
+		}
 	}
 }
 
